@@ -24,7 +24,9 @@ open PlzVerif.Cmd PlzVerif.Generated
 def seqs : List SeqDef := PlzVerif.Generated.C37.seqs.map fun x => ⟨x.1, x.2.1, x.2.2.1, x.2.2.2.1, x.2.2.2.2.1, x.2.2.2.2.2.1, x.2.2.2.2.2.2⟩
 
 /-- The regenerated `quote` facts. -/
-def qf : QuoteFacts := ⟨PlzVerif.Generated.C37.quoteChars, PlzVerif.Generated.C37.quoteLeft, PlzVerif.Generated.C37.quoteRight⟩
+def qf : QuoteFacts :=
+  ⟨PlzVerif.Generated.C37.quoteChars, PlzVerif.Generated.C37.quoteLeft, PlzVerif.Generated.C37.quoteRight,
+   PlzVerif.Generated.C37.multiGuardAccessor == "DeclaredOutputs"⟩
 
 def kwLocation : Str := ['l','o','c','a','t','i','o','n']
 def kwLocations : Str := kwLocation ++ ['s']
@@ -59,14 +61,18 @@ def expectedSkeletons : List (String × String) :=
     ("skelReplaceSequenceLabel", "734076f9ff401d7ac0c39e69"),
     ("skelReplaceSequence", "afd5d348adc4b747c8325249"),
     ("skelSplitEntryPoint", "b5b316dc012cad63fe35eb00"),
-    ("skelSourcesOrTools", "5fbe9d443a4d3f3c2eff30fc") ]
+    ("skelSourcesOrTools", "5fbe9d443a4d3f3c2eff30fc"),
+    ("skelOutputs", "4b57821a9b4fc00d60cb01da"),
+    ("skelDeclaredOutputs", "d158d44f14cc8b60ceb85362"),
+    ("skelFilegroupOutputs", "fcf0cbe3ac0d99b28ef9d697") ]
 
 def generatedSkeletons : List (String × String) :=
-  [ ("skelCheckTail", PlzVerif.Generated.C37.skelCheckTail), ("skelFileDestination", PlzVerif.Generated.C37.skelFileDestination), ("skelHandleDir", PlzVerif.Generated.C37.skelHandleDir), ("skelReplaceSequenceLabel", PlzVerif.Generated.C37.skelReplaceSequenceLabel), ("skelReplaceSequence", PlzVerif.Generated.C37.skelReplaceSequence), ("skelSplitEntryPoint", PlzVerif.Generated.C37.skelSplitEntryPoint), ("skelSourcesOrTools", PlzVerif.Generated.C37.skelSourcesOrTools) ]
+  [ ("skelCheckTail", PlzVerif.Generated.C37.skelCheckTail), ("skelFileDestination", PlzVerif.Generated.C37.skelFileDestination), ("skelHandleDir", PlzVerif.Generated.C37.skelHandleDir), ("skelReplaceSequenceLabel", PlzVerif.Generated.C37.skelReplaceSequenceLabel), ("skelReplaceSequence", PlzVerif.Generated.C37.skelReplaceSequence), ("skelSplitEntryPoint", PlzVerif.Generated.C37.skelSplitEntryPoint), ("skelSourcesOrTools", PlzVerif.Generated.C37.skelSourcesOrTools), ("skelOutputs", PlzVerif.Generated.C37.skelOutputs), ("skelDeclaredOutputs", PlzVerif.Generated.C37.skelDeclaredOutputs), ("skelFilegroupOutputs", PlzVerif.Generated.C37.skelFilegroupOutputs) ]
 
 /-- Side condition on the regenerated facts (decidable): the same nine sequences in any order, offsets that
     skip exactly `$(kw `, double-quote wrappers, every reacting character literal inside double quotes, and
-    all shell operator characters among them, the guard chain the model transcribes, every pass reading the previous
+    all shell operator characters among them, the guard chain the model transcribes — whose output counts, like the
+    output loop, are over `Outputs()` (declared + named + filegroup-derived), not `DeclaredOutputs()` —, every pass reading the previous
     pass's result, and the skeletons of the remaining functions. -/
 def FactsOK : Bool :=
   seqs.length = expectedSeqs.length && expectedSeqs.all (seqs.contains ·) &&
@@ -77,6 +83,18 @@ def FactsOK : Bool :=
 
 /-- Obligation a code change can break. -/
 theorem C37_facts_ok : FactsOK = true := by decide
+
+/-- Which accessor the guards and the output loop of `checkAndReplaceSequence` count/range over: all three must be
+    `Outputs()` — declared + named + filegroup-derived outputs — not `DeclaredOutputs()` (the plain `outs = [...]` list
+    only; what the two accessors consist of is pinned by `skelOutputs`/`skelDeclaredOutputs`/`skelFilegroupOutputs`). -/
+def AccessorsOK : Bool :=
+  PlzVerif.Generated.C37.multiGuardAccessor == "Outputs" && PlzVerif.Generated.C37.zeroGuardAccessor == "Outputs" &&
+  PlzVerif.Generated.C37.loopAccessor == "Outputs"
+
+theorem C37_accessors_ok : AccessorsOK = true := by decide
+
+/-- The model instance the theorems are about counts `Outputs()` in the "multiple outputs" guard. -/
+theorem qf_guard : qf.guardDeclared = false := by decide
 
 /-- Second half of the side condition: every pass reads the previous pass's result, and the remaining functions
     have the structure the model transcribes. -/
@@ -156,7 +174,7 @@ theorem C37_reject_badlabel (root : Str) (t : Target) (inp : Str) (runnable mult
 theorem C37_reject_multi (root : Str) (self : Bool) (dep : TSpec) (inp : Str)
     (runnable dir outPrefix hash test tool : Bool) (h : dep.outs.length > 1) :
     checkAndReplace qf root self dep [] inp runnable false dir outPrefix hash test true tool = .error .multi := by
-  simp [checkAndReplace, h]
+  simp [checkAndReplace, h, qf_guard]
 
 /-- `$(exe …)` on something that is not a binary is rejected. -/
 theorem C37_reject_notexe (root : Str) (self : Bool) (dep : TSpec) (ep inp : Str)
@@ -164,14 +182,15 @@ theorem C37_reject_notexe (root : Str) (self : Bool) (dep : TSpec) (ep inp : Str
     (hm : ¬ (allOutputs = true ∧ multiple = false ∧ dep.outs.length > 1 ∧ ep = [])) :
     checkAndReplace qf root self dep ep inp true multiple dir outPrefix hash test allOutputs tool = .error .notexe := by
   unfold checkAndReplace
+  simp only [qf_guard, Bool.false_eq_true, ↓reduceIte]
   have : (allOutputs && !multiple && decide (dep.outs.length > 1) && decide (ep = [])) = false := by
     cases allOutputs <;> cases multiple <;> simp_all
   simp [this, hb]
 
 -- non-vacuity of the rejection theorems: a target //p:t with one source file and one dependency //lib:d
 def rejT : Target :=
-  ⟨⟨⟨[], ['p'], ['t']⟩, [['o']], false, []⟩, [⟨(cl% "a.txt"), none⟩], [],
-   [⟨⟨[], (cl% "lib"), ['d']⟩, 2, [⟨⟨[], (cl% "lib"), ['d']⟩, [['x']], false, []⟩]⟩]⟩
+  ⟨⟨⟨[], ['p'], ['t']⟩, [['o']], false, [], []⟩, [⟨(cl% "a.txt"), none⟩], [],
+   [⟨⟨[], (cl% "lib"), ['d']⟩, 2, [⟨⟨[], (cl% "lib"), ['d']⟩, [['x']], false, [], []⟩]⟩]⟩
 
 example : looksLikeLabel (cl% "//other:thing") = true ∧
     tryParseLabel (splitEntryPoint (cl% "//other:thing")).1 rejT.spec.label.pkg rejT.spec.label.sub = some ⟨[], (cl% "other"), (cl% "thing")⟩ ∧
@@ -194,7 +213,7 @@ example : replaceSequence qf [] rejT (cl% "a.txt") false false false false false
 -- C37_command_reject_nondep: the whole command `$(location //other:thing)`
 example : replaceSequences seqs qf [] rejT false (seqText kwLocation (cl% "//other:thing")) = .error .nodep := by decide
 
-example : checkAndReplace qf [] false ⟨⟨[], ['p'], ['d']⟩, [['a'], ['b']], false, []⟩ [] ['/','/','p',':','d']
+example : checkAndReplace qf [] false ⟨⟨[], ['p'], ['d']⟩, [['a'], ['b']], false, [], []⟩ [] ['/','/','p',':','d']
     false false false false false false true false = .error .multi := by decide
 
 /-- `$(location …)`, `$(out_location …)`, `$(exe …)`, `$(out_exe …)` on a target with *no* outputs are rejected
@@ -203,10 +222,11 @@ theorem C37_reject_zero (root : Str) (self : Bool) (dep : TSpec) (inp : Str)
     (runnable dir outPrefix hash test tool : Bool) (h : dep.outs = []) :
     ∃ e, checkAndReplace qf root self dep [] inp runnable false dir outPrefix hash test true tool = .error e := by
   unfold checkAndReplace
+  simp only [qf_guard, Bool.false_eq_true, ↓reduceIte]
   simp only [h, List.length_nil]
   cases runnable <;> cases dep.bin <;> cases test <;> cases tool <;> simp
 
-example : checkAndReplace qf [] false ⟨⟨[], ['p'], ['d']⟩, [], false, []⟩ [] ['/','/','p',':','d']
+example : checkAndReplace qf [] false ⟨⟨[], ['p'], ['d']⟩, [], false, [], []⟩ [] ['/','/','p',':','d']
     false false false false false false true false = .error .zero := by decide
 
 /-- Full strength of the "wrong number of outputs" clause: a single-output sequence that expands names a target with
@@ -238,13 +258,62 @@ theorem C37_expansion_is_render (root : Str) (self : Bool) (dep : TSpec) (inp : 
     (h : checkAndReplace qf root self dep [] inp runnable multiple dir outPrefix false test allOutputs tool = .ok s) :
     s = render qf (seqPaths root self dep inp dir outPrefix test allOutputs tool) := by
   unfold checkAndReplace at h
+  simp only [qf_guard, Bool.false_eq_true, ↓reduceIte] at h
   split at h; · cases h
   split at h; · cases h
   split at h; · cases h
   split at h; · cases h
   split at h; · cases h
-  simp only [Bool.false_eq_true, ↓reduceIte] at h
-  cases h; rfl
+  first
+    | (cases h; rfl)
+    | (simp only [Bool.false_eq_true, ↓reduceIte] at h; cases h; rfl)
+
+/-- **A singular sequence is one word naming one output.**  Whenever `$(location L)` / `$(out_location L)` /
+    `$(exe L)` / `$(out_exe L)` (no entry point) expands at all, the dependency has exactly one output — counting
+    *every* output: plain declared, named (`outs = {"hdrs": […]}`) and filegroup-derived — the expansion is the quoted
+    path of that output, and for a good path the shell hands the command exactly that one word. -/
+theorem C37_singular_is_one_output (root : Str) (self : Bool) (dep : TSpec) (inp s : Str)
+    (runnable outPrefix test tool : Bool)
+    (h : checkAndReplace qf root self dep [] inp runnable false false outPrefix false test true tool = .ok s) :
+    ∃ o p, dep.outs = [o] ∧ seqPaths root self dep inp false outPrefix test true tool = [p] ∧ s = render qf [p] ∧
+      (goodPath qf p = true → shellWords s = some [p]) := by
+  have hlen := C37_single_output_exact root self dep inp s runnable false outPrefix false test tool h
+  have hs := C37_expansion_is_render root self dep inp runnable false false outPrefix test true tool s h
+  rcases ho : dep.outs with _ | ⟨o, _ | ⟨o2, os⟩⟩
+  · rw [ho] at hlen; simp at hlen
+  · have hp : seqPaths root self dep inp false outPrefix test true tool =
+        [if tool then pathJoin [root, pathJoin [dep.outDir, o]] else fileDestination self dep o false outPrefix test] := by
+      simp [seqPaths, ho, handleDir]
+    refine ⟨o, _, rfl, hp, by rw [hs, hp], ?_⟩
+    intro hg
+    rw [hs, hp]
+    exact C37_words_partial _ (by intro q hq; simp only [List.mem_singleton] at hq; subst hq; exact hg)
+  · rw [ho] at hlen; simp at hlen
+
+-- non-vacuity: a dependency whose single output is a NAMED output
+example : checkAndReplace qf [] false ⟨⟨[], ['p'], ['d']⟩, [(cl% "a.h")], false, [], [(cl% "a.h")]⟩ [] (cl% "//p:d")
+    false false false false false false true false = .ok (cl% "p/a.h") := by decide
+
+/-- The guard counts *all* outputs: a dependency with two NAMED outputs (or a filegroup over two files — nothing in
+    its plain `outs` list) is rejected by the singular forms. -/
+theorem C37_reject_multi_named (root : Str) (self : Bool) (dep : TSpec) (inp : Str)
+    (runnable dir outPrefix hash test tool : Bool) (h : dep.outs.length > 1) (_hnamed : dep.declared = []) :
+    checkAndReplace qf root self dep [] inp runnable false dir outPrefix hash test true tool = .error .multi :=
+  C37_reject_multi root self dep inp runnable dir outPrefix hash test tool h
+
+example : (⟨⟨[], ['p'], ['d']⟩, [(cl% "a.c"), (cl% "a.h")], false, [], [(cl% "a.c"), (cl% "a.h")]⟩ : TSpec).declared = [] := by decide
+
+/-- Witness (negative control for the fact `multiGuardAccessor`): were the guard to count only the plain declared
+    outputs (`len(dep.DeclaredOutputs()) > 1`), `$(location //p:d)` on a dependency with the two named outputs `a.c`,
+    `a.h` would not be rejected: the loop writes every output and ONE sequence becomes TWO shell words
+    (`cp $(location //p:d) $OUT` = `cp p/a.c p/a.h $OUT`). -/
+theorem C37_witness_declared_only_guard :
+    let dep : TSpec := ⟨⟨[], ['p'], ['d']⟩, [(cl% "a.c"), (cl% "a.h")], false, [], [(cl% "a.c"), (cl% "a.h")]⟩
+    checkAndReplace { qf with guardDeclared := true } [] false dep [] (cl% "//p:d") false false false false false false true false
+      = .ok (cl% "p/a.c p/a.h") ∧
+    shellWords (cl% "p/a.c p/a.h") = some [(cl% "p/a.c"), (cl% "p/a.h")] ∧
+    checkAndReplace qf [] false dep [] (cl% "//p:d") false false false false false false true false = .error .multi := by
+  decide
 
 /-- A declared label is a *build input* of the target when it is among the sources, or a dependency that is
     neither source-only nor data. -/
@@ -324,6 +393,7 @@ theorem C37_locations_end_to_end (root : Str) (t : Target) (inp : Str) (label : 
   · unfold replaceSequence
     simp only [hl, ↓reduceIte, hnoep, hparse, replaceSequenceLabel, hself, hdf, htool']
     unfold checkAndReplace
+    simp only [qf_guard, Bool.false_eq_true, ↓reduceIte]
     have hf : dep.outs.filter (fun _ => true) = dep.outs := List.filter_eq_self.mpr (fun _ _ => rfl)
     simp [seqPaths, fileDestination, handleDir, hf]
   · intro p hp
@@ -342,6 +412,7 @@ theorem C37_entry_point (root : Str) (self : Bool) (dep : TSpec) (ep inp out : S
     checkAndReplace qf root self dep ep inp false multiple dir false false false true false
       = .ok (quote qf (if dir then dep.pkgDir else pathJoin [dep.pkgDir, out])) := by
   unfold checkAndReplace
+  simp only [qf_guard, Bool.false_eq_true, ↓reduceIte]
   simp [hne, hfind, fileDestination, handleDir]
 
 /-- **Entry points of tools** (repaired): like every other tool output they are addressed by the absolute path of
@@ -352,6 +423,7 @@ theorem C37_tool_entry_point_abs (root : Str) (self : Bool) (dep : TSpec) (ep in
     checkAndReplace qf root self dep ep inp runnable multiple false outPrefix false false true true
       = .ok (quote qf (pathJoin [root, pathJoin [dep.outDir, out]])) := by
   unfold checkAndReplace
+  simp only [qf_guard, Bool.false_eq_true, ↓reduceIte]
   have hl : dep.outs.length ≠ 0 := by intro h; exact ho (List.length_eq_zero_iff.mp h)
   cases runnable with
   | false => simp [hne, hfind, handleDir]
@@ -388,7 +460,7 @@ theorem C37_exists_file (root : Str) (t : Target) (inp : Str) (multiple dir outP
 
 /-- Witness: a plain name that is *not* a source is not rejected; it expands to a path nothing creates. -/
 theorem C37_witness_nonsource_file :
-    let t : Target := ⟨⟨⟨[], ['p'], ['t']⟩, [['o']], false, []⟩, [⟨['a','.','t','x','t'], none⟩], [], []⟩
+    let t : Target := ⟨⟨⟨[], ['p'], ['t']⟩, [['o']], false, [], []⟩, [⟨['a','.','t','x','t'], none⟩], [], []⟩
     replaceSequence qf [] t ['t','y','p','o'] false false false false false false = .ok ['p','/','t','y','p','o']
     ∧ ['p','/','t','y','p','o'] ∉ t.tmpPaths := by decide
 
@@ -413,8 +485,8 @@ theorem C37_tool_abs (root : Str) (self : Bool) (dep : TSpec) (inp : Str) (outPr
 
 -- the former witness of `tool-entry-point-not-absolute`: `$(exe //tl:x|m)` on a tool now gives the absolute path
 example :
-    let tool : TSpec := ⟨⟨[], ['t','l'], ['x']⟩, [['b','i','n']], true, [(['m'], ['b','i','n'])]⟩
-    let t : Target := ⟨⟨⟨[], ['p'], ['t']⟩, [['o']], false, []⟩, [], [⟨tool.label.str, some tool.label⟩], [⟨tool.label, 4, [tool]⟩]⟩
+    let tool : TSpec := ⟨⟨[], ['t','l'], ['x']⟩, [['b','i','n']], true, [(['m'], ['b','i','n'])], []⟩
+    let t : Target := ⟨⟨⟨[], ['p'], ['t']⟩, [['o']], false, [], []⟩, [], [⟨tool.label.str, some tool.label⟩], [⟨tool.label, 4, [tool]⟩]⟩
     replaceSequence qf ['/','r'] t ['/','/','t','l',':','x','|','m'] true false false false false false
       = .ok (cl% "/r/plz-out/bin/tl/bin") := by decide
 
@@ -427,14 +499,14 @@ theorem C37_dir_full (root : Str) (dep : TSpec) (inp o : Str) (os : List Str) (a
 
 -- the former witness of `dir-of-root-package-is-empty`
 example :
-    let dep : TSpec := ⟨⟨[], [], ['x']⟩, [['o']], false, []⟩
-    let t : Target := ⟨⟨⟨[], ['p'], ['t']⟩, [['o']], false, []⟩, [], [], [⟨dep.label, 2, [dep]⟩]⟩
+    let dep : TSpec := ⟨⟨[], [], ['x']⟩, [['o']], false, [], []⟩
+    let t : Target := ⟨⟨⟨[], ['p'], ['t']⟩, [['o']], false, [], []⟩, [], [], [⟨dep.label, 2, [dep]⟩]⟩
     replaceSequence qf [] t ['/','/',':','x'] false true true false false false = .ok ['.'] := by decide
 
 -- non-vacuity of C37_exists_label: a source dependency with two outputs
 example :
-    let dep : TSpec := ⟨⟨[], ['l','i','b'], ['d']⟩, [['a'], ['b',' ','c']], false, []⟩
-    let t : Target := ⟨⟨⟨[], ['p'], ['t']⟩, [['o']], false, []⟩, [⟨dep.label.str, some dep.label⟩], [], [⟨dep.label, 1, [dep]⟩]⟩
+    let dep : TSpec := ⟨⟨[], ['l','i','b'], ['d']⟩, [['a'], ['b',' ','c']], false, [], []⟩
+    let t : Target := ⟨⟨⟨[], ['p'], ['t']⟩, [['o']], false, [], []⟩, [⟨dep.label.str, some dep.label⟩], [], [⟨dep.label, 1, [dep]⟩]⟩
     replaceSequence qf [] t ['/','/','l','i','b',':','d'] false true false false false false = .ok (cl% "lib/a lib/b c")
     ∧ t.tmpPaths = [(cl% "lib/a"), (cl% "lib/b c")] := by decide
 
@@ -487,15 +559,15 @@ example : replaceSequences seqs qf [] rejT false (inCtx (cl% "cat ") (seqText kw
 
 -- non-vacuity: `$(locations //lib:d)` end to end, and the shell words of the result
 example :
-    let dep : TSpec := ⟨⟨[], ['l','i','b'], ['d']⟩, [['a'], ['b','&','c']], false, []⟩
-    let t : Target := ⟨⟨⟨[], ['p'], ['t']⟩, [['o']], false, []⟩, [⟨dep.label.str, some dep.label⟩], [], [⟨dep.label, 1, [dep]⟩]⟩
+    let dep : TSpec := ⟨⟨[], ['l','i','b'], ['d']⟩, [['a'], ['b','&','c']], false, [], []⟩
+    let t : Target := ⟨⟨⟨[], ['p'], ['t']⟩, [['o']], false, [], []⟩, [⟨dep.label.str, some dep.label⟩], [], [⟨dep.label, 1, [dep]⟩]⟩
     replaceSequences seqs qf [] t false (seqText kwLocations (cl% "//lib:d")) = .ok (cl% "lib/a \"lib/b&c\"")
     ∧ shellWords (cl% "lib/a \"lib/b&c\"") = some [(cl% "lib/a"), (cl% "lib/b&c")] := by decide
 
 /-- Witness of the re-scan: an output whose *name* looks like a sequence is expanded by a later pass. -/
 theorem C37_witness_rescan :
-    let dep : TSpec := ⟨⟨[], ['l'], ['d']⟩, [(cl% "$(dir :d)")], false, []⟩
-    let t : Target := ⟨⟨⟨[], ['l'], ['t']⟩, [['o']], false, []⟩, [⟨dep.label.str, some dep.label⟩], [], [⟨dep.label, 1, [dep]⟩]⟩
+    let dep : TSpec := ⟨⟨[], ['l'], ['d']⟩, [(cl% "$(dir :d)")], false, [], []⟩
+    let t : Target := ⟨⟨⟨[], ['l'], ['t']⟩, [['o']], false, [], []⟩, [⟨dep.label.str, some dep.label⟩], [], [⟨dep.label, 1, [dep]⟩]⟩
     replaceSequences seqs qf [] t false (seqText kwLocation (cl% ":d")) = .ok (cl% "\"l/l\"") := by decide
 
 end PlzVerif.Props.C37
